@@ -135,7 +135,14 @@ def ensure_coq_makefile():
 def coq_make(targets, timeout, jobs=8):
     with Lock("coq"):
         ensure_coq_makefile()
-        return run(["make", "-j%d" % jobs, "--no-print-directory"] + targets, cwd=COQ, timeout=timeout)
+        rc, out = run(["make", "-j%d" % jobs, "--no-print-directory"] + targets, cwd=COQ, timeout=timeout)
+        if rc != 0 and re.search(r"No rule to make target|No such file or directory|cannot open", out):
+            # a .v file appeared/vanished between the glob and coqdep: regenerate once and retry
+            try: os.remove(os.path.join(COQ, "_CoqProject"))
+            except OSError: pass
+            ensure_coq_makefile()
+            rc, out = run(["make", "-j%d" % jobs, "--no-print-directory"] + targets, cwd=COQ, timeout=timeout)
+        return rc, out
 
 
 def theorems_of(props_file):
